@@ -15,4 +15,5 @@ run() {  # <diff> <property ids...>
 }
 run set_a.diff C17 C09 C06 C11 C03 C01
 run set_b.diff C13 C16 C15 C12 C07 C02
+run set_c.diff C16 C17 C07 C15 C09 C03
 exit $rc
